@@ -6,10 +6,14 @@ CUSTOMS = [dict(v=13, title="NOTICE13", treat=4, err=False), dict(v=14, title="S
            dict(v=15, title="PLAIN15", treat=-1, err=False), dict(v=-8, title="NEG8", treat=-1, err=False),
            dict(v=40, title="HIGH40", treat=6, err=False), dict(v=-21, title="NEG21", treat=4, err=False),
            dict(v=-5, title="NEG5", treat=0, err=True), dict(v=1000, title="BIG1000", treat=3, err=False),
-           dict(v=12, title="MAX12", treat=5, err=False)]
-TREAT = {9: 4, 10: 4, 11: 2, 13: 4, 14: 2, 40: 6, -21: 4, -5: 0, 1000: 3, 12: 5}
-ERRDEV = [0, 1, 2, 3, 11, 14, -5]
-ALL_LEVELS = list(range(0, 12)) + [13, 14, 15, -8, 40, -21, -5, 1000, 12]
+           dict(v=12, title="MAX12", treat=5, err=False),
+           # treated as one of the special levels, and as a level registered before (chains)
+           dict(v=50, title="ALW50", treat=8, err=False), dict(v=51, title="OFF51", treat=7, err=False),
+           dict(v=52, title="OKAY52", treat=9, err=False), dict(v=53, title="FAIL53", treat=11, err=False),
+           dict(v=54, title="CHAIN54", treat=13, err=False), dict(v=55, title="CHAIN55", treat=54, err=True)]
+TREAT = {9: 4, 10: 4, 11: 2, 13: 4, 14: 2, 40: 6, -21: 4, -5: 0, 1000: 3, 12: 5, 50: 8, 51: 7, 52: 9, 53: 11, 54: 13, 55: 54}
+ERRDEV = [0, 1, 2, 3, 11, 14, -5, 55]
+ALL_LEVELS = list(range(0, 12)) + [13, 14, 15, -8, 40, -21, -5, 1000, 12, 50, 51, 52, 53, 54, 55]
 GATE_SEVS = ALL_LEVELS + [17, 99, -3]          # plus unregistered values
 OBS = ["cfg", "gate"]
 
@@ -24,13 +28,15 @@ def config(levels, max_loggers, acts, pkg_levels=None):
 # RegisterLevel calls of the registry graph: a value registered twice (the second call is refused and
 # must change nothing), a call refused for its title (nothing of it may stay behind), a retry of
 # that value without treated-as level, a negative value
-REG_CALLS = [dict(v=20, t=4), dict(v=20, t=2), dict(v=21, t=3, clash=True), dict(v=21), dict(v=-8, t=4)]
+REG_CALLS = [dict(v=20, t=4), dict(v=20, t=2), dict(v=21, t=3, clash=True), dict(v=21), dict(v=-8, t=4),
+             # treated as a level that is registered (or not yet registered) at that moment, and as Always
+             dict(v=22, t=20), dict(v=23, t=8)]
 
 
 def config_reg(quick):
     return dict(max_loggers=1, init_level=5, names=[], bool_lists=[[]], layouts=[""], opt_lists=[[]],
                 setter_args={"Level": [(v, 0) for v in ([2, 4, 6] if quick else [2, 3, 4, 5, 6, 7, 8])]},
-                acts=["Set", "Register"], probe_sevs=[4], gate_sevs=[2, 3, 4, 5, 6, 9, 20, 21, -8, 17],
+                acts=["Set", "Register"], probe_sevs=[4], gate_sevs=[2, 3, 4, 5, 6, 9, 20, 21, -8, 17, 22, 23],
                 customs=[], reg_calls=REG_CALLS)
 
 
